@@ -221,10 +221,12 @@ def envLoad (environ : List (List Char × List Char)) (acc : KVs) : List (List K
       | .error e => .error e
       | .ok x => envLoad environ (setPath acc p (.leaf x)) rest
 
-/-- `load_shell_env()`: pre-merge, crawl the merged view, load, merge again.
+/-- `load_shell_env()`: the env level is EMPTIED, the rest is merged, the merged view is crawled, the
+    environment loaded against it, and everything merged again - so the new env level is a function of
+    the other levels, the journal and the current environment only (nothing a previous load left).
     `environ` holds the variables that carry the configuration's prefix, prefix stripped. -/
 def Cfg.loadShellEnv (c : Cfg) (environ : List (List Char × List Char)) : Except CErr Cfg :=
-  match c.view with
+  match (c.set .env []).view with
   | .error e => .error e
   | .ok v => match envLoad environ [] (leafVals [] v) with
     | .error e => .error e
